@@ -38,6 +38,9 @@ import (
 //	commit <s|a> <i> <j> ...    -> ok    next block with transactions i, j, ... built, signed, executed and committed
 //	                                     (s: ExecuteBlock+SubmitBlock, a: ExecuteBlock+AddBlock)
 //	check <i>                   -> ok | dup | unknown    CheckTx for transaction i through the validator actor
+//	reopen                      -> ok    stores closed, ledger reopened from disk (the in-memory block/transaction cache is cold)
+//	closestore                  -> ok    the ledger's stores are closed under the running validator: lookups that reach
+//	                                     LevelDB now fail (leveldb: closed); the case ends after the following checks
 //
 // Oracle: at every check the verdict must equal ledger.IsContainTransaction at that moment, and must equal the
 // harness's own set of committed transactions.
@@ -251,6 +254,22 @@ func (f *statefulFam) Exec(r *hx.Run, op []string) string {
 		}
 		f.pid = actor.NewLocalPID(id)
 		return "ok"
+	case "reopen":
+		func() {
+			defer func() { recover() }()
+			ledger.DefLedger.Close()
+		}()
+		l, err := stNewLedger(f.dir) // same directory: Init finds the stored genesis block and loads the chain
+		if err != nil {
+			return "err:" + strings.ReplaceAll(err.Error(), " ", "_")
+		}
+		ledger.DefLedger = l
+		return "ok"
+	case "closestore":
+		if err := ledger.DefLedger.Close(); err != nil {
+			return "err:" + strings.ReplaceAll(err.Error(), " ", "_")
+		}
+		return "ok"
 	case "commit":
 		var idx []int
 		for _, t := range op[2:] {
@@ -284,6 +303,12 @@ func (f *statefulFam) Exec(r *hx.Run, op []string) string {
 			out = "dup"
 		}
 		in, err := ledger.DefLedger.IsContainTransaction(tx.Hash())
+		if err != nil && out != "unknown" {
+			// the verdict may be ok only if the ledger positively answered "not contained"
+			r.Viol(fmt.Sprintf("C38:stateful-verdict-%s-despite-lookup-error:committed=%v", out, f.committed[i]),
+				fmt.Sprintf("ledger.IsContainTransaction(tx %d) fails with %q, yet stateful validation answered %s (transaction committed by the harness: %v)",
+					i, err.Error(), out, f.committed[i]))
+		}
 		if err == nil && in != (out == "dup") {
 			r.Viol(fmt.Sprintf("C38:stateful-verdict-differs-from-ledger:in-ledger=%v:verdict=%s", in, out),
 				fmt.Sprintf("stateful validation of transaction %d (%x) answered %s at height %d, but ledger.IsContainTransaction is %v at that moment",
@@ -299,6 +324,13 @@ func (f *statefulFam) Exec(r *hx.Run, op []string) string {
 		return out
 	}
 	return "bad-op"
+}
+
+func min(a, b int) int {
+	if a < b {
+		return a
+	}
+	return b
 }
 
 func (f *statefulFam) Gen(r *hx.Run) {
@@ -390,6 +422,30 @@ func (f *statefulFam) Gen(r *hx.Run) {
 		}
 		for _, t := range pendingChecked {
 			r.Do(fmt.Sprintf("check %d", t))
+		}
+		// fault ending: cold cache (reopen), optionally more blocks (warm for those only), then the stores are closed
+		// under the running validator and committed / fresh transactions are checked
+		if c%2 == 0 || r.Rng.Bool() {
+			r.Do("reopen")
+			for _, t := range committed[:min(len(committed), 3)] {
+				r.Do(fmt.Sprintf("check %d", t))
+			}
+			var warm []int
+			if r.Rng.Bool() {
+				t := fresh()
+				r.Do(fmt.Sprintf("commit %s %d", commitKinds[r.Rng.Intn(2)], t))
+				warm = append(warm, t)
+			}
+			r.Do("closestore")
+			for _, t := range warm {
+				r.Do(fmt.Sprintf("check %d", t)) // still answered from the in-memory cache
+			}
+			for k := 0; k < 4 && len(committed) > 0; k++ {
+				r.Do(fmt.Sprintf("check %d", committed[r.Rng.Intn(len(committed))]))
+			}
+			r.Do(fmt.Sprintf("check %d", fresh()))
+			r.Do(fmt.Sprintf("check %d", fresh()))
+			r.Nontrivial(fmt.Sprintf("fault:warm=%d", len(warm)))
 		}
 	}
 	f.close()
